@@ -78,6 +78,16 @@ where
     }
 }
 
+/// Raises the shared shutdown flag when a worker thread ends for any reason (finish condition,
+/// target reached or a panic unwinding out of model code) so that the other workers stop too.
+struct ShutdownOnDrop(Arc<AtomicBool>);
+
+impl Drop for ShutdownOnDrop {
+    fn drop(&mut self) {
+        self.0.store(true, Ordering::Relaxed);
+    }
+}
+
 pub(crate) struct SimulationChecker<M: Model> {
     // Immutable state.
     model: Arc<M>,
@@ -149,6 +159,7 @@ where
                 std::thread::Builder::new()
                     .name(format!("checker-{}", t))
                     .spawn(move || {
+                        let _shutdown_on_exit = ShutdownOnDrop(Arc::clone(&shutdown));
                         let mut seed = thread_seed;
                         log::debug!("{}: Thread started with seed={}.", t, seed);
                         // FIXME: use a reproducible rng, one that will not change over versions.
